@@ -136,8 +136,8 @@ func selectWork(e *Engine, props []string, only string) []*FuncResult {
 		if len(props) > 0 && !intersects(ps, props) {
 			continue
 		}
-		if ct := e.contracts[k]; ct != nil && (ct.Assumed || ct.Inline) {
-			continue
+		if ct := e.contracts[k]; ct != nil {
+			continue // functions under contract are checked against their contract, not swept
 		}
 		out = append(out, e.verifyFunc(fn, nil, true, ps))
 	}
